@@ -1,6 +1,6 @@
-import SqlProofs.DelimR.Inv
+import SqlProofs.DelimChild.Reindent.Inv
 /-!
-# SqlProofs.DelimR.Ops — what the parent-level loop of a pass does to one child list, with a protected suffix
+# SqlProofs.DelimChild.Reindent.Ops — what the parent-level loop of a pass does to one child list, with a protected suffix
 
 `Ops al il S ks ks'`: `ks'` comes from `ks = F ++ S` by `group_tokens` calls (class neither one of the six nor `TokenList`;
 `TokenList` with `extend` for `align_comments` if `al`) and re-typings that all stay inside `F`.  Consequences, proved
@@ -8,7 +8,8 @@ once: the suffix `S` is still there, the last non-whitespace child of `F` is the
 (`LastRel`), and every child of the new list satisfies the tree invariant.
 -/
 namespace Sql
-namespace DC
+namespace DCR
+open DC
 
 variable {u : Text → Text}
 
@@ -243,5 +244,5 @@ theorem isInst_notWs {g : Node} {cls : Cls} (h : g.isInst cls = true) : g.isWhit
   | tok _ _ => simp [Node.isInst] at h
   | grp _ _ => rfl
 
-end DC
+end DCR
 end Sql
